@@ -145,7 +145,8 @@ def run(ctx):
             continue
         for ln in open(cases_file):
             c = json.loads(ln)
-            out = peakstats_run(c["x"], c["y"], c["edge"] or None)
+            # (every third / fourth case: the run also has a second stream whose events carry only x, or only y)
+            out = peakstats_run(c["x"], c["y"], c["edge"] or None, other=(None, None, "mot", "det")[total % 4])
             ctx.case((tuple(c["x"]), tuple(c["y"]), c["edge"]), len(set(c["y"])) > 1)
             total += 1
             if c["edge"] and c["midtie"]:
@@ -170,7 +171,7 @@ def run(ctx):
     inputs = []
     for i in range(80 if quick else 1500):
         xf, yf, xi, yi, edge, shape = random_case(rng, i)
-        out = peakstats_run(xf, yf, edge)
+        out = peakstats_run(xf, yf, edge, other=(None, "mot", "det")[i % 3])
         ctx.case((tuple(xi), tuple(yi), edge), shape != "flat")
         if edge is None:
             ysub, tol = yi, 0
